@@ -339,16 +339,25 @@ class MKernel:
         for fa, fc in forms:
             if sympy.expand(addr - fa) == 0 and comps == fc:
                 return sympy.Symbol(p)
-        other = []
-        for k2, mj in (("nz", K), ("row", ROW), ("col", COL)):
-            if k2 == kind:
-                continue
-            other += [(mj, []), (mj, {"nz": [I, J], "row": [I], "col": [J]}[k2]), ({"nz": BH * BW * K + I * BW + J, "row": BH * ROW + I, "col": BW * COL + J}[k2], [])]
-        if not any(sympy.expand(addr - fa) == 0 and comps == fc for fa, fc in other):
-            raise Unknown("array `%s` is subscripted by %s%s (address form not modelled)" % (p, addr, "".join("[%s]" % c for c in comps)))
+        # the address was normalised by isym(): every atom is a classified one (row, entry, col_ind[entry], block row/column
+        # loop variables, block dimensions) -- anything else raised Unknown there.  A polynomial over these atoms that differs
+        # from the admissible form addresses a different element: definite violation; give a concrete witness.
+        witness = ""
+        want_addr = forms[0][0]
+        try:
+            import itertools
+            for bh_, bw_ in ((2, 3), (3, 2), (2, 2), (1, 1)):
+                for k_, r_, c_, i_, j_ in itertools.product(range(2), range(2), range(2), range(bh_), range(bw_)):
+                    sub = {BH: bh_, BW: bw_, K: k_, ROW: r_, COL: c_, I: i_, J: j_}
+                    got, exp = sympy.sympify(addr).subs(sub), sympy.sympify(want_addr).subs(sub)
+                    if got.is_number and exp.is_number and got != exp and comps == forms[0][1]:
+                        witness = "; witness: block %dx%d, entry/row/col=%d/%d/%d, i=%d, j=%d addresses element %s instead of %s" % (bh_, bw_, k_, r_, c_, i_, j_, got, exp)
+                        raise StopIteration
+        except StopIteration:
+            pass
         raise Wrong("array `%s` (%s-indexed: %s) is subscripted by %s%s, expected %s%s" % (
             p, {"nz": "entry", "row": "row", "col": "column"}[kind], {"nz": "one value per stored entry", "row": "one value per row", "col": "one value per column"}[kind],
-            addr, "".join("[%s]" % c for c in comps), forms[0][0], "".join("[%s]" % c for c in forms[0][1])))
+            addr, "".join("[%s]" % c for c in comps), forms[0][0], "".join("[%s]" % c for c in forms[0][1])) + witness)
 
     def vsym(self, n):
         n = strip(n)
